@@ -50,6 +50,9 @@ def known(d):
     p = d.get("orphan")
     if not d.get("cfg", "").startswith(("ovl", "alt_ovl")):
         return None
+    # D31: layers that conflict in type (a file over a directory with children) - the orphan is there from the start
+    if d.get("case", "").startswith("c03_typeconflict_") and p and tuple(p[:1]) == ("x",) and len(p) == 2:
+        return "D31"
     if d.get("spec") and "contract says err for `removefile" in d.get("note", "") and "answered ok" in d.get("note", ""):
         return "D15"
     if not p:
@@ -80,6 +83,9 @@ def corpus_cases():
     for c in hist.matrix_cases("c03", kinds):
         c.probe_steps = universe.add_probes(c, c.cfg.target, ["d", "e", "f", "g", "m", "zz"], depth=2,
                                             extra=[("d", "e", "h"), ("d", "e", "in"), ("g", "zz", "d")])
+        cases.append(c)
+    for c in hist.type_conflict_cases("c03"):
+        c.probe_steps = universe.add_probes(c, c.cfg.target, ["x", "c"], depth=2)
         cases.append(c)
     for c in hist.neighbour_name_cases("c03", ["mem", "alt_mem", "ovl_mm", "ovl_m"]):
         c.probe_steps = universe.add_probes(c, c.cfg.target, ["docs", "readme", "deep", "docs.d"], depth=2,
